@@ -13,7 +13,8 @@ VERIF = '/verif'
 CONFIGS = {
     'quick':    [dict(lanes=2, queue=1, tasks=2, producers=1), dict(lanes=1, queue=1, tasks=2, producers=1), dict(lanes=2, queue=0, tasks=2, producers=1)],
     'thorough': [dict(lanes=2, queue=1, tasks=2, producers=1), dict(lanes=1, queue=1, tasks=2, producers=1), dict(lanes=2, queue=0, tasks=2, producers=1),
-                 dict(lanes=2, queue=1, tasks=3, producers=1), dict(lanes=2, queue=2, tasks=3, producers=2), dict(lanes=3, queue=1, tasks=3, producers=1)],
+                 dict(lanes=2, queue=1, tasks=3, producers=1), dict(lanes=2, queue=2, tasks=3, producers=2), dict(lanes=3, queue=1, tasks=3, producers=1),
+                 dict(lanes=3, queue=2, tasks=4, producers=2), dict(lanes=3, queue=0, tasks=3, producers=1), dict(lanes=1, queue=2, tasks=3, producers=2)],
 }
 BMC_DEPTH = {'quick': 14, 'thorough': 18}
 
